@@ -137,10 +137,8 @@ def entry_violations(spec, entry):
             out += ["non-string", "unannotated"]
             continue
         typ, optional, uuid4, required, repeated, other = KINDS[decl[f]]
-        if typ != "string":
+        if typ != "string" or repeated:          # a `repeated string` is not a string field (AIP-4235)
             out.append("non-string")
-        elif repeated:
-            out.append("repeated-string")
         if required:
             out.append("required")
         if not uuid4:
@@ -381,13 +379,12 @@ def oracle_generation(ctx, want, viol, ok, errs, settings, payload):
         ctx.fail("rejected-valid", f"valid settings rejected: {errs}", payload)
     if not want and ok:
         kinds = sorted(set(viol))
-        key = "repeated-string-accepted" if kinds == ["repeated-string"] else "accepted-invalid:" + "+".join(kinds)
-        ctx.fail(key, f"settings with violation(s) {kinds} were accepted", payload)
+        ctx.fail("accepted-invalid:" + "+".join(kinds), f"settings with violation(s) {kinds} were accepted", payload)
     if not want and not ok:
         sels = [e["selector"] for e in settings]
         offenders = {s for s in sels if sels.count(s) > 1}
         spec = payload["spec"]
-        offenders |= {e["selector"] for e in settings if [v for v in entry_violations(spec, e) if v != "repeated-string"]}
+        offenders |= {e["selector"] for e in settings if entry_violations(spec, e)}
         missing = offenders - set(errs)
         if missing:
             ctx.fail("offender-not-named", f"error message does not name {sorted(missing)}: {errs}", payload)
@@ -814,8 +811,9 @@ CLAIM = dict(
           'order of the emitted method bodies; a model-independent oracle restating AIP-4235.'),
     technique='Lean 4 theorems (loop invariants over the settings list and over the macro loop) + differential T2/T3 against the real validation and the emitted clients',
     design='7.18',
-    note=('Two departures of the code from the statement are proved as _counterexample theorems and recorded as known findings: a `repeated string` '
-          'UUID4 field passes the validation; a request INSTANCE that is passed twice re-sends the first id because the emitted code populates the '
-          "caller's object in place. uuid.uuid4 is an external parameter (injective, non-empty). macro_on_all_paths is structural on the model's "
+    note=('One departure of the code from the statement is proved as a _counterexample theorem and recorded as a known finding: a request INSTANCE '
+          "that is passed twice re-sends the first id because the emitted code populates the caller's object in place. (A second one, a `repeated "
+          'string` UUID4 field passing the validation, was repaired in /repo by 239cd3d; its corpus entry is a regression input and '
+          "`repeated_string_rejected` a regression theorem.) uuid.uuid4 is an external parameter (injective, non-empty). macro_on_all_paths is structural on the model's "
           'statement lists and is tied to the templates only through the emitted method bodies and T3.'),
 )
